@@ -134,6 +134,7 @@ def run(repo: Repo, chk: Check) -> None:
     dims(repo, chk)
     dim_sources(repo, chk)
     dim_operand(repo, chk)
+    subview_rank(repo, chk)
     helper_captures(repo, chk)
 
 
@@ -463,6 +464,109 @@ def dim_sources(repo: Repo, chk: Check) -> None:
                    "a size is accepted only for the producer kinds the hoisting code can reproduce",
                    f"`return {ast.unparse(s.node.value)[:70]}` accepts a size whose producer is of no particular kind: a multi-result op's result #1 is replaced by "
                    "its result #0 (alloc(%tm, %tm) instead of alloc(%tm, %tn)), and a side-effecting producer is moved past the ops that follow it", s.fact_texts)
+
+
+_RANK_L = ["$s.result.type.get_num_dims()", "len($s.result.type.get_shape())", "len($s.result.type.shape)", "len($s.result.type.shape.data)"]
+_RANK_R = ["len($s.static_sizes.get_values())", "len($s.static_sizes)", "len($s.static_sizes.data)", "$s.source.type.get_num_dims()", "len($s.source.type.get_shape())",
+           "len($s.source.type.shape)", "len($s.static_offsets.get_values())", "len($s.static_strides.get_values())"]
+
+
+def _rank_fact(site: Site, facts=None) -> bool:
+    """the subview is known to keep its rank here: (rank of the result) == (number of size entries / rank of the source)"""
+    for fa in (site.facts if facts is None else facts):
+        if fa.kind != "atom" or not isinstance(fa.expr, ast.Compare) or len(fa.expr.ops) != 1:
+            continue
+        # a result never has more dimensions than there are sizes: rank >= #sizes says the same as rank == #sizes
+        o_ = fa.expr.ops[0]
+        pairs = [(fa.expr.left, fa.expr.comparators[0]), (fa.expr.comparators[0], fa.expr.left)] if isinstance(o_, ast.Eq) else \
+            [(fa.expr.left, fa.expr.comparators[0])] if isinstance(o_, ast.GtE) else [(fa.expr.comparators[0], fa.expr.left)] if isinstance(o_, ast.LtE) else []
+        for a_, b_ in pairs:
+            ml = norm.any_match(_RANK_L, a_)
+            mr = norm.any_match(_RANK_R, b_)
+            if ml is not None and mr is not None and ast.unparse(ml["s"]) == ast.unparse(mr["s"]):
+                return True
+    return False
+
+
+def subview_rank(repo: Repo, chk: Check) -> None:
+    """dimension i of a subview's result is entry i of its sizes only when the subview keeps its rank: a rank-reducing subview
+    drops unit entries, and which ones is not determined by the sizes alone"""
+    outer = repo.func(REUSE, "MoveMemrefDims.match_and_rewrite")
+    chk.rule(
+        "C17.subview-rank",
+        "the sizes of a subview are indexed with a dimension index of its result only for subviews known to keep their rank (a rank comparison "
+        "dominates the lookup in the predicate that gates the rewrite), or through a mapping onto the kept entries that is guarded against kept "
+        "unit dimensions; otherwise a memref.dim behind a dropped dimension is replaced by the size of another dimension",
+        floor=1,
+    )
+    gs = outer.nested("get_subview_dim")
+    gfl = Flow(gs, repo)
+    chk.analysed(gs.key)
+    idx = gs.param(1)
+    reads: list[tuple[Site, ast.Subscript]] = []
+    for s in gfl.sites:
+        if not s.reachable or s.node is not s.stmt:
+            continue
+        own = [x for f_, x in ast.iter_fields(s.node) if f_ not in ("body", "orelse", "finalbody", "handlers")]
+        for part in own:
+            for x in (part if isinstance(part, list) else [part]):
+                if not isinstance(x, ast.AST):
+                    continue
+                for sub in ast.walk(x):
+                    if isinstance(sub, ast.Subscript) and isinstance(sub.ctx, ast.Load):
+                        base = norm.primary(s.expand(sub.value))
+                        if norm.any_match(["$s.static_sizes.get_values()", "$s.static_sizes", "list($s.static_sizes.get_values())"], base) is not None:
+                            reads.append((s, sub))
+    if not reads:
+        raise AnalysisError(f"{gs.where}: no read of the subview's static sizes found")
+    from sa.flow import expand as _expand
+
+    direct, mapped_unguarded, inner_guard = [], [], True
+    for s, sub in reads:
+        for alt in s.state.alts:
+            i = norm.primary(_expand(sub.slice, {k: v for k, v in alt.env.items() if k not in s.shadow}))
+            facts = list(alt.facts.values())
+            names = norm.free_names(i)
+            if idx not in names:
+                continue  # e.g. the loop that counts the dynamic entries in front of the dimension
+            if isinstance(i, ast.Name) and i.id == idx:
+                direct.append(s)
+                inner_guard = inner_guard and _rank_fact(s, facts)
+                continue
+            # index -> position among the entries that are kept
+            kept = [c for c in ast.walk(i) if isinstance(c, (ast.ListComp, ast.GeneratorExp)) and c.generators and c.generators[0].ifs]
+            if not kept:
+                raise AnalysisError(f"{s.where()}: the sizes are indexed with `{ast.unparse(i)[:80]}`, a mapping of the dimension index that is not recognised")
+            # the mapping drops every entry its filter rejects; that is only the subview's behaviour if as many entries survive as the result has dimensions
+            counted = any(fa.kind == "atom" and isinstance(fa.expr, ast.Compare) and any(norm.any_match(_RANK_L, x) is not None for x in [fa.expr.left, *fa.expr.comparators])
+                          and any(isinstance(c, ast.Call) and callee_name(c) in ("len", "sum") and any(isinstance(y, (ast.ListComp, ast.GeneratorExp)) for y in ast.walk(c))
+                                  for x in [fa.expr.left, *fa.expr.comparators] for c in ast.walk(x))
+                          and isinstance(fa.expr.ops[0], ast.Eq) for fa in facts)
+            if not counted:
+                mapped_unguarded.append((s, i))
+    if not direct and not mapped_unguarded and not any(idx in norm.free_names(norm.primary(s.expand(sub.slice))) for s, sub in reads):
+        raise AnalysisError(f"{gs.where}: the static sizes are never indexed with the requested dimension")
+    for s, i in mapped_unguarded:
+        chk.bad("C17.subview-rank", f"{gs.key}:mapping", s.where(),
+                f"the dimension index is mapped onto the entries selected by `{ast.unparse(i)[:100]}` without checking that as many entries "
+                "survive as the result has dimensions: a rank-reducing subview may keep unit dimensions (sizes [1, 1, %n] -> memref<1x?>), and the dim is then resolved to another dimension's size")
+    if direct and not inner_guard:
+        # the lookup itself is unguarded: every path that reaches it must have established that the rank is kept
+        gate = outer.nested("memref_op_outside_loop")
+        tfl = Flow(gate, repo)
+        chk.analysed(gate.key)
+        calls = [s for s in tfl.calls(gs.name) if s.reachable]
+        if not calls:
+            raise AnalysisError(f"{gate.where}: {gs.name} is not consulted by the predicate that gates the rewrite")
+        for n_, s in enumerate(calls, 1):
+            chk.result(_rank_fact(s), "C17.subview-rank", f"{gate.key}:rank-kept#{n_}", s.where(),
+                       "the size lookup by result dimension is only reached for subviews whose result has as many dimensions as there are sizes",
+                       f"static_sizes[{idx}] is read with the dimension index of the subview's result for any subview: for a rank-reducing one (sizes [1, %n] -> memref<?>) "
+                       "dim 0 resolves to the constant 1 instead of %n and the hoisted alloc gets the wrong shape", s.fact_texts)
+    elif direct:
+        chk.ok("C17.subview-rank", f"{gs.key}:rank-kept", direct[0].where(), "the size lookup is guarded by a rank comparison in place")
+    elif not mapped_unguarded:
+        chk.ok("C17.subview-rank", f"{gs.key}:mapping", reads[0][0].where(), "the dimension index is mapped onto the kept entries under a count check")
 
 
 def dim_operand(repo: Repo, chk: Check) -> None:
